@@ -2,7 +2,9 @@ package dawn
 
 import (
 	"bytes"
+	"crypto/sha256"
 	"encoding/base64"
+	"encoding/hex"
 	"errors"
 	"fmt"
 	"os"
@@ -112,6 +114,18 @@ func (f *function) generates() []string {
 
 func (f *function) info() targetInfo {
 	return f.targetInfo
+}
+
+// attrs returns a digest of self.dependencies, self.sources and self.generates, in order. The sources
+// are the last len(f.sources) dependencies. Generated files are taken relative to the project root, so
+// that moving a project does not change the digest.
+func (f *function) attrs() string {
+	h := sha256.New()
+	fmt.Fprintf(h, "%q %d", f.deps, len(f.sources))
+	for _, g := range f.gens {
+		fmt.Fprintf(h, " %q", strings.TrimPrefix(g, f.proj.root))
+	}
+	return hex.EncodeToString(h.Sum(nil))
 }
 
 var functionEnvKeys = []starlark.String{
